@@ -291,8 +291,9 @@ func c18CompareEntity(c *violSink, at string, input interface{}, want refEnt, go
 func c18DirName(n string) bool { return n == "" || n == "." || n == ".." }
 
 // c18KeyUsable: file names on which Set must work (one path component, NAME_MAX incl. the temporary sibling).
+// (names of the reserved temporary form "<file>.tmp" are refused by the storage: they are never keys)
 func c18KeyUsable(n string) bool {
-	return !c18DirName(n) && !strings.ContainsAny(n, "/\x00") && len(n)+4 <= 255
+	return !strings.HasSuffix(n, ".tmp") && !c18DirName(n) && !strings.ContainsAny(n, "/\x00") && len(n)+4 <= 255
 }
 
 func sortedByBytes(s []string) { sort.Strings(s) }
@@ -401,6 +402,9 @@ func genStorageHistory(r *rand.Rand) []stOp {
 		if !bytes.Contains(keys[0], []byte(":")) && len(keys[0]) < 200 {
 			keys[0] = append([]byte{keys[0][0], ':'}, keys[0][1:]...)
 		}
+	}
+	if r.Intn(5) == 0 && nk >= 2 && len(keys[0]) < 200 { // a key that has the name of another key's temporary sibling
+		keys[nk-1] = append([]byte(strings.Replace(string(keys[0]), ":", "", -1)), ".tmp"...)
 	}
 	ne := 1 + r.Intn(4)
 	var names [][]byte
@@ -556,6 +560,8 @@ func c18Corpus() []struct {
 		{"corpus#delete-then-get", []stOp{{Kind: "set", Key: k, Val: []byte("v")}, {Kind: "del", Key: k}, {Kind: "get", Key: k}, {Kind: "del", Key: k}, {Kind: "list", Key: nil}}},
 		{"corpus#temp-sibling-not-listed", []stOp{{Kind: "set", Key: []byte("a.txt"), Val: []byte("1")}, {Kind: "save", Key: []byte("n"), Pub: []byte{1}, Priv: []byte{2}},
 			{Kind: "list", Key: []byte(".tmp")}, {Kind: "list", Key: nil}, {Kind: "all"}}},
+		{"corpus#F21-temp-named-key", []stOp{{Kind: "set", Key: []byte("k.tmp"), Val: []byte("mine")}, {Kind: "get", Key: []byte("k.tmp")}, {Kind: "set", Key: k, Val: []byte("other")}, {Kind: "get", Key: []byte("k.tmp")},
+			{Kind: "list", Key: nil}, {Kind: "del", Key: []byte("k.tmp")}, {Kind: "get", Key: k}}},
 		{"corpus#colon-alias", []stOp{{Kind: "set", Key: []byte("a:b"), Val: []byte("1")}, {Kind: "get", Key: []byte("ab")}, {Kind: "set", Key: []byte("ab"), Val: []byte("22")}, {Kind: "get", Key: []byte("a:b")}, {Kind: "list", Key: nil}}},
 	}
 }
